@@ -1,7 +1,6 @@
 """Property id -> check function(work, tier, seed, replay) -> exit code."""
-import checks_seq, checks_ops, checks_bastion
+import checks_seq, checks_ops, checks_bastion, checks_feed
 
 CHECKS = {}
-CHECKS.update(checks_seq.CHECKS)
-CHECKS.update(checks_ops.CHECKS)
-CHECKS.update(checks_bastion.CHECKS)
+for m in (checks_seq, checks_ops, checks_bastion, checks_feed):
+    CHECKS.update(m.CHECKS)
